@@ -1,8 +1,28 @@
-(* C13 — Strategies are isolated from each other and from callback errors.  Statements only (crux lemmas; the
-   composite non-interference of whole runs is established by the metamorphic correspondence, not proved). *)
+(* C13 — Strategies are isolated from each other and from callback errors.  Statements only.  Non-interference is proved for the matcher
+   (one market update, any number of strategies and orders); the composite statement over whole runs is established by the metamorphic
+   correspondence, not proved. *)
 From Coq Require Import ZArith List Bool.
 From V Require Import Model.Num Model.Status Model.Sim Model.SimLoop Gen.StatusC Proofs.SimIsolationP Proofs.SimTradedP.
 Open Scope Z_scope.
+
+(* NON-INTERFERENCE OF THE MATCHER under strategy isolation: what the simulated matching of a market update does to the orders of a strategy
+   is exactly what it would do if the other strategies' orders were not in the market at all - for any number of strategies and orders, any
+   book, any traded volume (projection on the strategy commutes with process_sim_orders).  Order references are unique (C19). *)
+Theorem C13_matcher_non_interference : forall tb cf b ans st orders, cf_isolation cf = true -> NoDup (map so_name orders) ->
+  proj_strat st (process_sim_orders tb cf b ans orders) = process_sim_orders tb cf b ans (proj_strat st orders).
+Proof. exact isolation_matching. Qed.
+Print Assumptions C13_matcher_non_interference.
+(* its two halves at the level of one strategy's turn *)
+Theorem C13_own_turn_commutes : forall tb cf b st ans live os, NoDup (map so_name os) -> (forall x, In x live -> In x os /\ so_strat x = st) ->
+  proj_strat st (match_orders tb cf b ans live os) = match_orders tb cf b ans live (proj_strat st os).
+Proof. exact match_orders_P. Qed.
+Theorem C13_others_turn_is_invisible : forall tb cf b st st' ans live os, st' <> st -> NoDup (map so_name os) -> (forall x, In x live -> In x os /\ so_strat x = st') ->
+  proj_strat st (match_orders tb cf b ans live os) = proj_strat st os.
+Proof. exact match_orders_other. Qed.
+(* the matcher never changes who an order belongs to *)
+Theorem C13_identity_preserved : forall tb c b r tr o, ns (fst (fst (on_book tb c b r tr o))) = ns o.
+Proof. exact ns_on_book. Qed.
+Print Assumptions C13_others_turn_is_invisible.
 
 (* frame: matching the live orders of one strategy leaves every other order exactly as it was *)
 Theorem C13_matching_frame : forall tb cf b ans live orders o,
